@@ -6,9 +6,10 @@ import json
 from .. import rev_corr, rev_impl
 
 THEOREMS = {
-    "C01": ["C01.plan", "C01.plan_of_needs", "C01.sort_total", "C01.norm_closure",
+    "C01": ["C01.plan", "C01.plan_history", "C01.upgradeOk_sound", "C01.requires_iff_isAnc", "C01.plan_of_needs", "C01.sort_total", "C01.norm_closure",
             "Lemmas.Rev.topoLoopG_ok", "Lemmas.Rev.topoSort_ok", "Lemmas.Rev.mem_closureOf_iff",
-            "Lemmas.Rev.loaded_of_load", "Lemmas.Rev.upgradeNeeds_spec"],
+            "Lemmas.Rev.loaded_of_load", "Lemmas.Rev.upgradeNeeds_spec", "Lemmas.Rev.allDownOf_mem_iff_parents",
+            "Lemmas.Rev.mem_ancSet_iff"],
     "C02": ["C02.plan", "C02.plan_of_set", "C02.target_safe", "C02.reach_inv", "C02.mem_downgradeSet",
             "Lemmas.Rev.topoSort_ok", "Lemmas.Rev.loaded_of_load"],
     "C03": ["C03.step", "C03.upgrade_run", "C03.downgrade_run", "C03.run_up", "C03.run_down", "C03.init",
